@@ -152,23 +152,23 @@ Proof. vm_compute; reflexivity. Qed.
 
 Example sample_roundtrip :
   exists v', tparse_json (tdump true 2 sample) = Some v' /\ teq v' sample = Some true.
-Proof. eexists; split; vm_compute; reflexivity. Qed.
+Proof. eexists; split; [vm_compute; reflexivity | vm_compute; reflexivity]. Qed.
 
 (* ---- the pinned source (keys not escaped) violates the property: DESIGN section 8 #27 *)
-Definition key_quote : tjson := JObj [ ([97; 34; 98]%N, JNum (PInt KI32 1) []) ].      (* key a"b *)
-Definition key_backslash : tjson := JObj [ ([97; 92; 98]%N, JNum (PInt KI32 1) []) ].  (* key a\b *)
+Definition key_quote : tjson := JObj [ ([97; 34; 98]%N, JNum (PInt KI32 1) []) ].      (* key: a, double quote, b *)
+Definition key_backslash : tjson := JObj [ ([97; 92; 98]%N, JNum (PInt KI32 1) []) ].  (* key: a, backslash, b *)
 
 Theorem key_escape_refuted :
   twf key_quote = true /\ tparse_json (tdump false 2 key_quote) = None /\
   twf key_backslash = true /\
   exists v', tparse_json (tdump false 2 key_backslash) = Some v' /\ teq v' key_backslash = Some false.
-Proof. split; [vm_compute; reflexivity|]. split; [vm_compute; reflexivity|]. split; [vm_compute; reflexivity|]. eexists; split; vm_compute; reflexivity. Qed.
+Proof. split; [vm_compute; reflexivity|]. split; [vm_compute; reflexivity|]. split; [vm_compute; reflexivity|]. eexists; split; [vm_compute; reflexivity | vm_compute; reflexivity]. Qed.
 
 (* with the repair the same values round-trip (instances of parse_dump_roundtrip) *)
 Example key_escape_repaired :
   (exists v', tparse_json (tdump true 2 key_quote) = Some v' /\ teq v' key_quote = Some true) /\
   (exists v', tparse_json (tdump true 2 key_backslash) = Some v' /\ teq v' key_backslash = Some true).
-Proof. split; eexists; split; vm_compute; reflexivity. Qed.
+Proof. split; (eexists; split; [vm_compute; reflexivity | vm_compute; reflexivity]). Qed.
 
 (* ---- a number that was parsed and then assigned a scalar: the pinned primitive::operator=(T) keeps
    the old source text, so the dump shows the old number (fixes/C24-2.patch clears it) *)
@@ -177,7 +177,7 @@ Theorem stale_source_refuted :
   let v := json_assign_scalar bool bool true parsed_5L (PInt KI32 7) in
   tdump true 2 v = [53; 76]%N /\
   exists v', tparse_json (tdump true 2 v) = Some v' /\ teq v' v = Some false.
-Proof. split; [vm_compute; reflexivity|]. eexists; split; vm_compute; reflexivity. Qed.
+Proof. split; [vm_compute; reflexivity|]. eexists; split; [vm_compute; reflexivity | vm_compute; reflexivity]. Qed.
 
 Example assign_scalar_repaired :
   let v := json_assign_scalar bool bool false parsed_5L (PInt KI32 7) in
@@ -199,7 +199,7 @@ Theorem same_refuted :
   twf v = true /\
   exists v', tparse_json (tdump true 0 v) = Some v' /\ teq v' v = Some true /\ tsame v' v = false /\
              v' = JNum (PInt KI32 (-294967296)) [52; 48; 48; 48; 48; 48; 48; 48; 48; 48]%N.
-Proof. split; [vm_compute; reflexivity|]. eexists; repeat split; vm_compute; reflexivity. Qed.
+Proof. split; [vm_compute; reflexivity|]. eexists; split; [vm_compute; reflexivity|]; split; [vm_compute; reflexivity|]; split; vm_compute; reflexivity. Qed.
 
 (* an uninitialised (none) entry is printed as {} and comes back as an empty object *)
 Example none_not_in_domain :
